@@ -63,7 +63,7 @@ def pairs_to_dict(value: Any) -> Any:
     return value
 
 
-def parse(ns: tuple, given: Dict[str, Any], verbatim_ns_defaults: bool = False) -> Dict[str, Any]:
+def parse(ns: tuple, given: Dict[str, Any], verbatim_ns_defaults: bool = False, keep_empty_nopop: bool = False) -> Dict[str, Any]:
     """Complete ``given`` with the declared defaults.  A namespace's own default is itself completed with the defaults of the
     ports inside it, or - ``verbatim_ns_defaults``, the statement does not rank the two kinds of default - taken as it is."""
     out = dict(given)
@@ -72,7 +72,10 @@ def parse(ns: tuple, given: Dict[str, Any], verbatim_ns_defaults: bool = False) 
             if not is_port(e):
                 if not isinstance(given[name], dict):
                     raise Rejected(f'{name} is a namespace, its value must be a mapping')
-                out[name] = parse(e, given[name], verbatim_ns_defaults)
+                if keep_empty_nopop and not e[3] and given[name] == {}:
+                    out[name] = {}  # (reading: "left out unless supplied" - an empty mapping supplies nothing)
+                else:
+                    out[name] = parse(e, given[name], verbatim_ns_defaults, keep_empty_nopop)
             continue
         if is_port(e):
             if e[3] != NODEFAULT:
@@ -82,17 +85,20 @@ def parse(ns: tuple, given: Dict[str, Any], verbatim_ns_defaults: bool = False) 
                 continue
             if ns_default(e) != NODEFAULT:  # the namespace's own default, itself completed with the defaults inside
                 default = pairs_to_dict(ns_default(e)[1])
-                out[name] = default if verbatim_ns_defaults else parse(e, default, verbatim_ns_defaults)
+                out[name] = default if verbatim_ns_defaults else parse(e, default, verbatim_ns_defaults, keep_empty_nopop)
             elif e[5]:  # a namespace with ports is considered recursively
-                out[name] = parse(e, {}, verbatim_ns_defaults)
+                out[name] = parse(e, {}, verbatim_ns_defaults, keep_empty_nopop)
     return out
 
 
-def validate(ns: tuple, parsed: Dict[str, Any], raw: Any = None, strict: bool = False, skip_absent: bool = False) -> None:
+def validate(ns: tuple, parsed: Dict[str, Any], raw: Any = None, strict: bool = False, skip_absent: bool = False,
+             require_ns: bool = False, top: bool = True) -> None:
     """Raises Rejected if the (completed) mapping does not conform.  ``raw`` is what the caller gave for this namespace
     (ABSENT if nothing).  An optional namespace that got nothing is not looked into; ``strict`` selects the reading in
     which an *empty mapping given explicitly* is something (and the required ports inside are then missing), the default
     is the reading in which it is nothing."""
+    if require_ns and not top and ns[1] and not ns[3] and raw is ABSENT:
+        raise Rejected('a required namespace that is not populated with defaults was not supplied')
     if not parsed and not ns[1] and not (strict and raw is not ABSENT and raw is not None):
         return  # an optional namespace that got nothing
     if skip_absent and not ns[1] and raw is ABSENT:
@@ -112,7 +118,7 @@ def validate(ns: tuple, parsed: Dict[str, Any], raw: Any = None, strict: bool = 
                 raise Rejected(f'{name} rejected by its validator')
         else:
             sub_raw = raw.get(name, ABSENT) if isinstance(raw, dict) else ABSENT
-            validate(e, value if present else {}, sub_raw, strict, skip_absent)
+            validate(e, value if present else {}, sub_raw, strict, skip_absent, require_ns, False)
     if rest:
         if ns[2] == 'static':
             raise Rejected(f'undeclared {sorted(rest)}')
@@ -131,9 +137,9 @@ def check_dynamic(values: Any) -> None:
 
 
 def accept(ns: tuple, given: Dict[str, Any], strict: bool = False, verbatim_ns_defaults: bool = False,
-           skip_absent: bool = False) -> Dict[str, Any]:
-    parsed = parse(ns, given, verbatim_ns_defaults)
-    validate(ns, parsed, given, strict, skip_absent)
+           skip_absent: bool = False, require_ns: bool = False, keep_empty_nopop: bool = False) -> Dict[str, Any]:
+    parsed = parse(ns, given, verbatim_ns_defaults, keep_empty_nopop)
+    validate(ns, parsed, given, strict, skip_absent, require_ns)
     return parsed
 
 
